@@ -140,8 +140,15 @@ def main_check(pid: str, tier: str) -> int:
                 replica_diffs.append((r, other[k]))
     harness_errors = [r for r in rows if r["harness_error"]]
     good = [r for r in rows if not r["harness_error"]]
-    bad_idx, coq_errors = C.run_case_files(pid, prop.coq_imports, prop.case_type, prop.check_fn, [r["term"] for r in good],
-                                           per_file=getattr(prop, "per_file", 250), extra_defs=getattr(prop, "extra_defs", ""))
+    flat_terms, owner = [], []
+    for gi, r in enumerate(good):
+        ts = r["term"] if isinstance(r["term"], list) else [r["term"]]
+        for t in ts:
+            flat_terms.append(t)
+            owner.append(gi)
+    bad_flat, coq_errors = C.run_case_files(pid, prop.coq_imports, prop.case_type, prop.check_fn, flat_terms,
+                                            per_file=getattr(prop, "per_file", 250), extra_defs=getattr(prop, "extra_defs", ""))
+    bad_idx = sorted({owner[i] for i in bad_flat})
 
     # 3. decision
     def report(key, what, payload):
